@@ -101,7 +101,7 @@ def run(tier: str, seed: int) -> int:
         s = seed * 1_000_003 + i
         r = random.Random(s)
         feat = {"jac": "callable", "callback": r.choice(["none", "false"]) if i % 4 else "false",
-                "ftarget": "none" if i % 4 else r.choice(["float", "callable"]), "gtol_callable": False,
+                "ftarget": "none" if i % 4 else r.choice(["float", "callable", "int", "callable_int"]), "gtol_callable": False,
                 "scaler": r.choice(["const", "const", "packaged"]), "s": 10 ** r.uniform(-3, 3), "update": "none"}
         cases.append({"seed": s, "features": feat})
     # a share of cases with a target, to exercise "target tested on the unscaled value" (monitor C04 via message truth)
